@@ -185,6 +185,22 @@ type runState struct {
 	capped   bool
 	crashes  int
 	keys     map[string]map[int]string // per space: case index -> state key
+	known    *Known
+	unlisted int       // violating cases no known finding covers
+	stopAt   time.Time // once unlisted > 0: no new shard is started after this instant
+}
+
+// stopEarly: a run that has already found violations no known finding covers does not
+// start further shards once the grace period is over (the verdict is settled; on a badly
+// broken tree every further case costs a worker death or a hang timeout).
+func (rs *runState) stopEarly() bool {
+	rs.mu.Lock()
+	defer rs.mu.Unlock()
+	if rs.unlisted > 0 && time.Now().After(rs.stopAt) {
+		rs.capped = true
+		return true
+	}
+	return false
 }
 
 func selfExe() string {
@@ -202,6 +218,9 @@ func (rs *runState) runShard(sp *Space, lo, hi int) {
 		caseTO = 10 * time.Second
 	}
 	for lo < hi {
+		if rs.stopEarly() {
+			return
+		}
 		if time.Now().After(rs.deadline) {
 			rs.mu.Lock()
 			rs.capped = true
@@ -446,6 +465,9 @@ func (rs *runState) merge(sp *Space, o *shardOut) {
 			m = map[string]bool{}
 			rs.violKeys[sk[0]] = m
 		}
+		if !m[sk[1]] && rs.known != nil && !rs.known.Covers(sk[0], sk[1]) {
+			rs.unlisted++
+		}
 		m[sk[1]] = true
 	}
 }
@@ -469,6 +491,17 @@ func Run(id, tier string) int {
 		}
 	}
 	rs := &runState{chk: chk, tier: tier, violKeys: map[string]map[string]bool{}, agg: map[string]*shardOut{}, deadline: start.Add(budget)}
+	rs.known = LoadKnown(id)
+	grace := 90 * time.Second
+	if tier == "thorough" {
+		grace = 10 * time.Minute
+	}
+	if g := os.Getenv("VERIF_STOP_AFTER_S"); g != "" {
+		if n, err := strconv.Atoi(g); err == nil {
+			grace = time.Duration(n) * time.Second
+		}
+	}
+	rs.stopAt = start.Add(grace)
 	spaces := chk.Spaces(tier)
 	os.RemoveAll(filepath.Join(ReplayDir(), id))
 	os.Setenv("VERIF_RUN_ID", strconv.Itoa(os.Getpid()))
@@ -511,6 +544,17 @@ func Run(id, tier string) int {
 					hi = sp.Size
 				}
 				shards = append(shards, rng{lo, hi})
+			}
+			// shards are started in a strided order (every w-th first), so that all regions of
+			// the space are sampled early by the first wave of workers; all of them still run
+			if n := len(shards); n > w {
+				strided := make([]rng, 0, n)
+				for off := 0; off < w; off++ {
+					for k := off; k < n; k += w {
+						strided = append(strided, shards[k])
+					}
+				}
+				shards = strided
 			}
 			// VERIF_SEED only rotates the order in which shards are scheduled.
 			if len(shards) > 0 && seed != 0 {
